@@ -146,8 +146,8 @@ Definition await_suspend (q : list Z) (s : sp) : sp * list Z * list Z * cost * Z
        (s2, post, olist out ++ pre ++ (if found then [driver] else []), c, pushes,
         zlen pre + (if found then 1 else 0)).
 
-(* what an await adds on its own: the awaiter's handle, unless await_suspend found it in the list *)
-Definition self_push (q : list Z) (s : sp) : list Z :=
+(* what an await adds on its own: the awaiter's handle, unless await_suspend found it in the list (l.179) *)
+Definition self_push (s : sp) : list Z :=
   if sp_count s =? 0 then [driver]
   else let '(s1, out) := sp_pop s in
        if existsb is_drv (olist out) || existsb is_drv (hs s1) then [] else [driver].
